@@ -705,12 +705,15 @@ def disc_oracle(v, runs, concrete):
 def check_C05(v, tier, seed):
     runs = root_runs("C05", tier, seed, "all", 1200, 20000)
     concrete = set()
+    # the procfs handle constructors make system calls too (fsopen, fsmount, open_tree, the open of /proc)
+    ctor = constructor_step(v, "C05", runs, concrete)
     ncalls, follow = disc_oracle(v, runs, concrete)
     broken = generic_tie(v, runs, concrete)
     cov = coverage_of(runs)
     cov["tie_mismatches"] = broken
     cov["calls_checked_against_Disc"] = ncalls
     cov["follow_opens_seen"] = follow
+    cov["handle_constructors"] = ctor
     strace_tie_step(v, "C05", [["root", "--ops", "all", "--seed", str(seed + 37), "--n", str(sizes(tier, 200, 3000))],
                                ["proc-live", "--seed", str(seed + 41), "--n", str(sizes(tier, 60, 600))],
                                ["reopen", "--seed", str(seed + 43)]], cov)
@@ -723,9 +726,12 @@ def check_C11(v, tier, seed):
     # table is compared while the error is still pending
     runs.append(Run("C11-capi", ["capi-args"] + (["--thorough"] if tier == "thorough" else [])))
     concrete = run_oracle_cases(v, runs, oracle_fd_table, "descriptor table not restored")
+    # the long-lived descriptors of procfs handles: every constructor, close-on-exec
+    ctor = constructor_step(v, "C11", runs, concrete)
     broken = generic_tie(v, runs, concrete)
     cov = coverage_of(runs)
     cov["tie_mismatches"] = broken
+    cov["handle_constructors"] = ctor
     # descriptors opened, duplicated or closed behind the recorder's back
     strace_tie_step(v, "C11", [["root", "--ops", "all", "--seed", str(seed + 47), "--n", str(sizes(tier, 150, 2000))],
                                ["capi-args"]], cov)
@@ -789,6 +795,12 @@ def constructor_step(v, prop, runs, concrete):
             for c in r.cases:
                 kv = dict(t.split("=", 1) for t in c.res[2:] if "=" in t) if c.res[:2] == ["ok", "handle"] else None
                 res[c.meta.get("kind")] = (c, kv)
+            for k, (c, kv) in res.items():
+                if kv is not None and kv.get("cloexec") != "1":
+                    msg = f"the descriptor of the procfs handle made by {k}() is not close-on-exec (fd {kv.get('fd')})"
+                    facts = {"kind": "oracle", "oracle": msg, "case": c.id, "op": "proc_new", "env": name, "constructor": k}
+                    v.fail(facts, case_replay(c, f"[{name}] " + msg, {"environment": " ".join(prefix) or "root"}))
+                    concrete.add((r.name, c.id))
             host = (res.get("unsafe_open") or (None, None))[1]
             private_possible = [k for k in ("fsopen_subset", "fsopen_full", "open_tree", "open_tree_recursive")
                                 if (res.get(k) or (None, None))[1] is not None]
